@@ -229,32 +229,58 @@ Record scan_out := {
 
 Definition scan_fail (s : status) : scan_out := {| so_status := s; so_tuples := []; so_nv := [] |}.
 
-(** the public scan on a tree_instance *)
-Definition scan (tr : tree) (a : scan_args) : option scan_out :=
+(** argument validation of scan(): Some status = rejected *)
+Definition scan_validate (a : scan_args) : option status :=
   if (sa_lnull a && negb (Nat.eqb (length (sa_l a)) 0)) || (sa_rnull a && negb (Nat.eqb (length (sa_r a)) 0))
-  then Some (scan_fail St_ERR_BAD_USAGE)
+  then Some St_ERR_BAD_USAGE
   else match check_empty_scan_range (sa_l a) (sa_le a) (sa_r a) (sa_re a) with
   | St_OK =>
     if sa_rtl a && (negb (ep_eqb (sa_re a) EP_INF) || negb (Nat.eqb (sa_max a) 1))
-    then Some (scan_fail St_ERR_BAD_USAGE)
-    else if t_null tr then Some (scan_fail St_OK_ROOT_IS_NULL)
-    else
-      match layer_get (t_layers tr) [] with
+    then Some St_ERR_BAD_USAGE else None
+  | s => Some s
+  end.
+
+(** the traversal part of scan() *)
+Definition scan_body (tr : tree) (a : scan_args) : option scan_out :=
+  if t_null tr then Some (scan_fail St_OK_ROOT_IS_NULL)
+  else
+    match layer_get (t_layers tr) [] with
+    | None => None
+    | Some root =>
+      match find_leaf root (scan_descent_tuple (sa_l a) (sa_rtl a)) with
       | None => None
-      | Some root =>
-        match find_leaf root (scan_descent_tuple (sa_l a) (sa_rtl a)) with
-        | None => None
-        | Some start =>
-          if get_deleted (lf_ver start) && get_root (lf_ver start)
-          then Some {| so_status := St_OK; so_tuples := []; so_nv := [(lf_id start, lf_ver start)] |}
-          else
-            match scan_layer (S (length (t_layers tr))) (t_layers tr) (sa_max a) (sa_rtl a)
-                             [] [] (sa_l a) (sa_le a) (sa_r a) (sa_re a)
-                             {| ac_tuples := []; ac_nv := [] |} with
-            | None => None
-            | Some acc => Some {| so_status := St_OK; so_tuples := ac_tuples acc; so_nv := ac_nv acc |}
-            end
-        end
+      | Some start =>
+        if get_deleted (lf_ver start) && get_root (lf_ver start)
+        then Some {| so_status := St_OK; so_tuples := []; so_nv := [(lf_id start, lf_ver start)] |}
+        else
+          match scan_layer (S (length (t_layers tr))) (t_layers tr) (sa_max a) (sa_rtl a)
+                           [] [] (sa_l a) (sa_le a) (sa_r a) (sa_re a)
+                           {| ac_tuples := []; ac_nv := [] |} with
+          | None => None
+          | Some acc => Some {| so_status := St_OK; so_tuples := ac_tuples acc; so_nv := ac_nv acc |}
+          end
       end
-  | s => Some (scan_fail s)
+    end.
+
+(** scan as in the pinned source: the left key was used for the descent even
+    when its endpoint was INF (finding F1) *)
+Definition scan_orig (tr : tree) (a : scan_args) : option scan_out :=
+  match scan_validate a with
+  | Some s => Some (scan_fail s)
+  | None => scan_body tr a
+  end.
+
+(** an INF endpoint ignores the key passed with it ("fix:" commit for F1) *)
+Definition scan_normalise (a : scan_args) : scan_args :=
+  match sa_le a with
+  | EP_INF => {| sa_l := []; sa_le := EP_INF; sa_r := sa_r a; sa_re := sa_re a; sa_max := sa_max a;
+                 sa_rtl := sa_rtl a; sa_lnull := sa_lnull a; sa_rnull := sa_rnull a |}
+  | _ => a
+  end.
+
+(** the public scan on a tree_instance (current source) *)
+Definition scan (tr : tree) (a : scan_args) : option scan_out :=
+  match scan_validate a with
+  | Some s => Some (scan_fail s)
+  | None => scan_body tr (scan_normalise a)
   end.
